@@ -15,11 +15,16 @@
         preorder of the mirrored tree (back), postorder (leave), bracketed order (both), and the one-level filter
         (recurse=False), for every tree and filter; with all=True the yielded ids are exactly the tree's ids, parent
         first; leave visits the same set as enter.
-   NOT PROVED: the six special classes (ClassDef, Call, Dict, Compare, arguments, MatchMapping: interleaving by
-   position), step_fwd/step_back, child_path: correspondence / oracle cross-check only. "Text order" of children is a
+     I  (models/Interleave.v) the children of a Call / ClassDef head - two AST lists that interleave in the source -
+        merged by (line, column): the merge contains the elements of both lists each once, is in position order, and a
+        list in strict position order is determined by its elements (so this is THE syntax order); tied to
+        astutil.syntax_ordered_children by correspondence.
+   NOT PROVED: the stepping functions of the six special classes (ClassDef, Call, Dict, Compare, arguments, MatchMapping:
+   interleaving by position), step_fwd/step_back, child_path: correspondence / oracle cross-check only. "Text order" of children is a
    property of parser output and is checked by the oracle. *)
 From Coq Require Import List String Bool Arith.
-From PF Require Import models.Traverse models.Walk gen.TraverseTables proofs.TraverseProofs proofs.WalkProofs.
+From PF Require Import models.Traverse models.Walk gen.TraverseTables proofs.TraverseProofs proofs.WalkProofs models.Interleave proofs.InterleaveProofs.
+From Coq Require Import Sorted Permutation.
 Import ListNotations.
 Local Open Scope string_scope.
 
@@ -110,6 +115,19 @@ Print Assumptions C14_walk_all_yields_exactly_the_nodes.
 Theorem C14_leave_visits_same_set : forall t x, In x (walk_leave false t) <-> In x (walk_enter false true t).
 Proof. intros t x. rewrite walk_leave_postorder, walk_enter_preorder. apply post_is_permutation_of_pre. Qed.
 Print Assumptions C14_leave_visits_same_set.
+
+Theorem C14_interleaved_children_are_both_lists_each_once : forall l1 l2, Permutation (merge l1 l2) (l1 ++ l2).
+Proof. exact merge_perm. Qed.
+Print Assumptions C14_interleaved_children_are_both_lists_each_once.
+
+Theorem C14_interleaved_children_are_in_position_order : forall l1 l2,
+  Sorted InterleaveProofs.le l1 -> Sorted InterleaveProofs.le l2 -> Sorted InterleaveProofs.le (merge l1 l2).
+Proof. exact merge_sorted. Qed.
+Print Assumptions C14_interleaved_children_are_in_position_order.
+
+Theorem C14_position_order_is_unique : forall l l', Sorted InterleaveProofs.lt l -> Sorted InterleaveProofs.lt l' -> Permutation l l' -> l = l'.
+Proof. exact strictly_sorted_unique. Qed.
+Print Assumptions C14_position_order_is_unique.
 
 Example C14_nonvacuous :
   let t := RNode 0 true [Some (RNode 1 true [Some (RNode 2 false []); None]); Some (RNode 3 true [])] in
